@@ -244,6 +244,7 @@ type sxWorld struct {
 	pend    []*sxAsync
 	nslow   int
 	nasync  int
+	ngate   int // requests refused before the session layer (`bad`): numbered apart, they never stay pending
 	reqID   int
 	stateless bool
 	mode    string   // stateful | stateless | legacy (stateless under allowsessionsinstateless=1) | noids (stateful, GetSessionID returns "")
@@ -263,7 +264,9 @@ func sxUserID(u string) (tok string, present bool) {
 	return "tok-" + u, true
 }
 
-func newSxWorld(mode string, timeoutMS int, withStore bool) *sxWorld {
+const sxNoServerHeader = "X-Verif-No-Server"
+
+func newSxWorld(mode string, timeoutMS int, withStore bool, opts ...string) *sxWorld {
 	stateless := mode == "stateless" || mode == "legacy"
 	w := &sxWorld{names: map[string]int{}, byOrd: map[int]string{}, slots: map[int]chan struct{}{}, stateless: stateless, mode: mode,
 		inflight: map[string]int{}, infos: map[string]*sessionInfo{}}
@@ -336,7 +339,17 @@ func newSxWorld(mode string, timeoutMS int, withStore bool) *sxWorld {
 	if w.store != nil {
 		hopts.EventStore = w.store
 	}
-	w.h = NewStreamableHTTPHandler(func(*http.Request) *Server { return w.server }, hopts)
+	for _, o := range opts {
+		if o == "json" {
+			hopts.JSONResponse = true // answers as application/json instead of an SSE stream: the session layer must not care
+		}
+	}
+	w.h = NewStreamableHTTPHandler(func(r *http.Request) *Server {
+		if r.Header.Get(sxNoServerHeader) != "" {
+			return nil // `bad noserver`: no server for this request
+		}
+		return w.server
+	}, hopts)
 	verifier := func(ctx context.Context, token string, req *http.Request) (*auth.TokenInfo, error) {
 		if !strings.HasPrefix(token, "tok-") {
 			return nil, auth.ErrInvalidToken
@@ -741,6 +754,42 @@ func (w *sxWorld) apply(toks []string) (obs string) {
 			head = "pending -"
 		}
 		w.pend = append(w.pend, a)
+	case "bad":
+		// a request the handler must refuse before it reads the session id, whatever id and identity it carries
+		if len(toks) != 4 {
+			return "bad-op"
+		}
+		w.ngate++
+		method := http.MethodPost
+		if toks[1] == "getaccept" {
+			method = http.MethodGet
+		}
+		body := ""
+		if method == http.MethodPost {
+			body = w.body("ping", 0)
+		}
+		req, cancel := w.request(method, toks[2], toks[3], body)
+		switch toks[1] {
+		case "ctype":
+			req.Header.Set("Content-Type", "text/plain")
+		case "accept":
+			req.Header.Set("Accept", "application/json")
+		case "getaccept":
+			req.Header.Set("Accept", "application/json")
+		case "noserver":
+			req.Header.Set(sxNoServerHeader, "1")
+		default:
+			return "bad-op"
+		}
+		a := w.start(fmt.Sprintf("g%d", w.ngate), req, cancel)
+		synctest.Wait()
+		if a.finished() {
+			a.seen = true
+			head = w.respOf(a)
+		} else {
+			head = "pending -"
+		}
+		w.pend = append(w.pend, a)
 	case "tick":
 		ms, _ := strconv.Atoi(toks[1])
 		time.Sleep(time.Duration(ms) * time.Millisecond)
@@ -1084,6 +1133,15 @@ func (g *sxGen) next() (op string, tags []string) {
 			return fmt.Sprintf("postb %s %s", ref, user), []string{"postb", "id-" + cls}
 		}
 	}
+	if g.rng.Intn(100) < 5 {
+		// a request that is refused before the session layer, addressed like any other
+		ref, user, cls := g.target(true)
+		why := []string{"ctype", "accept", "getaccept", "noserver"}[g.rng.Intn(4)]
+		if why == "noserver" && !g.stateless {
+			ref, cls = "-", "noid" // (with an id the session is looked up first: an ordinary POST)
+		}
+		return fmt.Sprintf("bad %s %s %s", why, ref, user), []string{"bad-" + why, "id-" + cls}
+	}
 	r := g.rng.Intn(100)
 	switch {
 	case r < 40:
@@ -1419,7 +1477,7 @@ func sxRunCase(t *testing.T, out *verifOut, cs string, ops []string, gen *sxGen,
 					out.line(cs, "end", w.finish(), "end")
 				}
 				ms, _ := strconv.Atoi(toks[2])
-				w = newSxWorld(toks[1], ms, len(toks) > 3 && toks[3] == "es")
+				w = newSxWorld(toks[1], ms, len(toks) > 3 && toks[3] == "es", toks[3:]...)
 				out.line(cs, op, "ok", "reset")
 				return
 			}
@@ -1514,7 +1572,7 @@ func sxRunTagged(t *testing.T, out *verifOut, cs string, reset string, ops []str
 	synctest.Test(t, func(t *testing.T) {
 		toks := strings.Fields(reset)
 		ms, _ := strconv.Atoi(toks[2])
-		w := newSxWorld(toks[1], ms, false)
+		w := newSxWorld(toks[1], ms, false, toks[3:]...)
 		out.line(cs, reset, "ok", "reset")
 		for i, op := range ops {
 			obs := w.apply(strings.Fields(op))
@@ -1572,6 +1630,9 @@ func TestVerifSessions(t *testing.T) {
 			g.es = true
 			reset += " es"
 		}
+		if rng.Intn(100) < 25 {
+			reset += " json" // StreamableHTTPOptions.JSONResponse
+		}
 		ops := []string{reset}
 		if !g.stateless {
 			// most histories start with one to three sessions of different users
@@ -1598,7 +1659,7 @@ func TestVerifSessions(t *testing.T) {
 		rng := verifRng(int64(1_000_000 + c))
 		mode := []string{"legacy", "noids"}[c%2]
 		ops, tags := sxEphOps(rng, mode, 8+rng.Intn(20))
-		sxRunTagged(t, out, fmt.Sprintf("e%d", c), fmt.Sprintf("reset %s %d", mode, []int{0, 100}[rng.Intn(2)]), ops, tags)
+		sxRunTagged(t, out, fmt.Sprintf("e%d", c), fmt.Sprintf("reset %s %d%s", mode, []int{0, 100}[rng.Intn(2)], []string{"", "", " nes json"}[rng.Intn(3)]), ops, tags)
 	}
 	// every short history on one session (exhaustive: depth 3 quick, depth 4 thorough)
 	depth := verifN(3, 4)
